@@ -1,6 +1,7 @@
 import SamVerif.Model.CompileGate
 import SamVerif.Lemmas.MatchLowerBind
 import SamVerif.Lemmas.EnumRepr
+import SamVerif.Lemmas.BoundCheck
 import SamVerif.Lemmas.C03Opt
 import SamVerif.Lemmas.C03Str
 import SamVerif.Props.C07
@@ -389,5 +390,51 @@ example : layoutOf (fun t => t == 1) [[1], [1]] = [.boxed [1], .boxed [1]] := by
 example : layoutTable [.prim, .struct [0], .enum [[], [1]], .enum [[2]], .enum [[1]]] =
     [none, none, some [.int31, .unboxed 1], some [.boxed [2]], some [.unboxed 1]] := by decide
 end enumrepr
+
+/-! ## 6. Bounds of type arguments are validated at every bounded position -/
+section bounds
+open SamVerif.BoundCheck
+
+/-- **bounds_checked_everywhere**: `validate_type_arguments` reports position `k` exactly when the
+`k`-th type parameter has a bound that the `k`-th (explicit or solved) type argument does not satisfy -
+wherever the parameter stands in the list, in particular after unbounded parameters. -/
+theorem bounds_checked_everywhere (sat : Nat → Nat → Bool) (params : List (Option Nat)) (args : List Nat)
+    (k : Nat) :
+    k ∈ validate sat params args ↔
+      ∃ b a, params[k]? = some (some b) ∧ args[k]? = some a ∧ sat a b = false := by
+  unfold validate
+  rw [validateFrom_iff]
+  constructor
+  · rintro ⟨j, b, a, hk, hp, ha, hs⟩
+    have : k = j := by omega
+    subst this; exact ⟨b, a, hp, ha, hs⟩
+  · rintro ⟨b, a, hp, ha, hs⟩
+    exact ⟨k, b, a, by omega, hp, ha, hs⟩
+
+/-- **bounds_gate**: no error is reported iff every bounded position is satisfied - so a call the
+checker accepts has all its bounds satisfied (the premise of specialising `b.area()` to a member
+that exists). -/
+theorem bounds_gate (sat : Nat → Nat → Bool) (params : List (Option Nat)) (args : List Nat) :
+    validate sat params args = [] ↔
+      ∀ (k b a : Nat), params[k]? = some (some b) → args[k]? = some a → sat a b = true := by
+  constructor
+  · intro h k b a hp ha
+    cases hs : sat a b with
+    | true => rfl
+    | false =>
+      have : k ∈ validate sat params args := (bounds_checked_everywhere sat params args k).mpr ⟨b, a, hp, ha, hs⟩
+      rw [h] at this; cases this
+  · intro h
+    cases hv : validate sat params args with
+    | nil => rfl
+    | cons k rest =>
+      obtain ⟨b, a, hp, ha, hs⟩ := (bounds_checked_everywhere sat params args k).mp (by rw [hv]; simp)
+      rw [h k b a hp ha] at hs; cases hs
+
+-- `<L, S: HasArea>` instantiated with `<int, Blob>`: position 1 is reported; the `map_while` slip of
+-- seeded/C03d reports nothing
+example : validate (fun a b => a == b) [none, some 7] [1, 2] = [1] := by decide
+example : validateMapWhile (fun a b => a == b) [none, some 7] [1, 2] 0 = [] := by decide
+end bounds
 
 end SamVerif.C03
